@@ -352,6 +352,8 @@ def shrink_rt(d, m, fails):
         rounds += 1
         for cand in shrink_candidates(d, m):
             try:
+                if not (py_wf(*cand) and in_domain(*cand)):
+                    continue            # stay inside the property's quantifier
                 if fails(*cand) == base:
                     d, m = cand
                     changed = True
@@ -359,6 +361,27 @@ def shrink_rt(d, m, fails):
             except Exception:  # noqa
                 continue
     return d, m
+
+
+def py_wf_seg(entries, seg, group):
+    keys = [t for t, _ in seg]
+    if len(set(keys)) != len(keys):
+        return False
+    if group and (not entries or entries[0][1] not in keys):
+        return False
+    for t, v in seg:
+        e = fc.find_entry(entries, t)
+        if e is None or (e[0] == 'g') != (v[0] == 'grp'):
+            return False
+        if v[0] == 'grp' and not all(py_wf_seg(e[3], inst, True) for inst in v[1]):
+            return False
+    return True
+
+
+def py_wf(d, m):
+    """harness-side copy of the well-formedness of the statement: known distinct keys, every instance has its first field"""
+    tags = fc.all_tags(d['hdr'] + d['body'] + d['trl'])
+    return len(set(tags)) == len(tags) and all(py_wf_seg(d[s], m[s], False) for s in ('hdr', 'body', 'trl'))
 
 
 def shrink_candidates(d, m):
@@ -526,74 +549,46 @@ def rename(mdefs, d):
     return mdefs2, d2
 
 
-def run(ctx):
-    rng = ctx.rng
-    quick = ctx.tier == 'quick'
-    ctx.notes.append('implementation group equality: ' + ('plain-dict (repaired)' if eq_is_repaired() else 'OrderedDict (order sensitive, known finding)'))
-    n_dict = 70 if quick else 1500
-    n_msg = 8 if quick else 12
-    n_mal = 4 if quick else 6
-    n_dec = 12 if quick else 20
-    ctx.cov['rule'] = ('random dictionaries (header with MsgType + 0-3 entries, 1-3 message classes with 0-6 body entries, trailer 0-3; '
-                       'types int/float/bool/char/string; groups nested to depth 3; tags 1-5 digits, pairwise distinct) x messages '
-                       '(optional subsets, 0..7 instances, shuffled assignment order, re-assignment, negative/huge ints, repr floats, '
-                       "'=' inside strings, empty strings); distinct = distinct (dictionary, message) s-expression; plus out-of-domain "
-                       'assignments (type errors, unknown keys, bool in int field, non-ASCII, SOH in text, instance without first field) '
-                       'and mutated byte strings for the decoder — those for model/implementation agreement only')
-    # ---------------- plan all cases (pure data)
-    plan = []      # per dictionary: {'mdefs', 'wf': [(d, assign, m)], 'mal': [(d, kind, assign)], 'dec': [(kind, bytes)]}
-    for rep in load_corpus():
-        if rep.get('kind') == 'rt':
-            mdefs, d, m = case_from_replay(rep)
-            mdefs, d = rename(mdefs, d)
-            plan.append({'mdefs': mdefs, 'wf': [(d, m, m)], 'mal': [], 'dec': [], 'corpus': True})
-    wit = None
-    if ctx.driver.available:
-        try:
-            w = parse_sx(ctx.driver.ask(['fix.witness'])[0])
-            mdefs = [fc.mdef_from_parsed(x) for x in w[0]]
-            d = fc.mdef_from_parsed(w[1])
-            m = fc.msg_from_parsed(w[2])
-            mdefs, d = rename(mdefs, d)
-            plan.append({'mdefs': mdefs, 'wf': [(d, m, m)], 'mal': [], 'dec': [], 'witness': True})
-            wit = (d, m)
-        except Exception as e:  # noqa
-            ctx.notes.append(f'witness not available from the driver: {e!r}')
-    for i in range(n_dict):
-        mdefs = gen_dictionary(rng, allow_float=(i % 3 != 2))
-        entry = {'mdefs': mdefs, 'wf': [], 'mal': [], 'dec': []}
-        seeds = []
-        for _ in range(n_msg):
-            d = rng.choice(mdefs)
-            a = gen_assignments(rng, d)
-            m = {s: built_seg(a[s]) for s in a}
-            entry['wf'].append((d, a, m))
-            seeds.append(fc.ref_encode(d, m))
-        for _ in range(n_mal):
-            d = rng.choice(mdefs)
-            mut = mutate_assignments(rng, d, gen_assignments(rng, d))
-            if mut is not None:
-                entry['mal'].append((d, mut[0], mut[1]))
-        types = [x['type'] for x in mdefs]
-        for _ in range(n_dec):
-            entry['dec'].append(mutate_bytes(rng, rng.choice(seeds), types))
-        plan.append(entry)
+def gen_entry(rng, i, n_msg, n_mal, n_dec):
+    mdefs = gen_dictionary(rng, allow_float=(i % 3 != 2))
+    entry = {'mdefs': mdefs, 'wf': [], 'mal': [], 'dec': []}
+    seeds = []
+    for _ in range(n_msg):
+        d = rng.choice(mdefs)
+        a = gen_assignments(rng, d)
+        m = {s: built_seg(a[s]) for s in a}
+        entry['wf'].append((d, a, m))
+        seeds.append(fc.ref_encode(d, m))
+    for _ in range(n_mal):
+        d = rng.choice(mdefs)
+        mut = mutate_assignments(rng, d, gen_assignments(rng, d))
+        if mut is not None:
+            entry['mal'].append((d, mut[0], mut[1]))
+    types = [x['type'] for x in mdefs]
+    for _ in range(n_dec):
+        entry['dec'].append(mutate_bytes(rng, rng.choice(seeds), types))
+    return entry
+
+
+def execute_plan(ctx, rng, plan):
     # ---------------- model answers, one batch
     lines = []
     for entry in plan:
-        reg = sx([fc.mdef_sx(x) for x in entry['mdefs']])
+        md = {x['name']: sx(fc.mdef_sx(x)) for x in entry['mdefs']}
+        reg = '(' + ' '.join(md[x['name']] for x in entry['mdefs']) + ')'
         for d, a, m in entry['wf']:
-            lines.append(f'fix.build {sx(fc.mdef_sx(d))} {sx(fc.seg_sx(a["hdr"]))} {sx(fc.seg_sx(a["body"]))} {sx(fc.seg_sx(a["trl"]))}')
-            lines.append(f'fix.rt {reg} {sx(fc.mdef_sx(d))} {sx(fc.msg_sx(m))}')
+            lines.append(f'fix.build {md[d["name"]]} {sx(fc.seg_sx(a["hdr"]))} {sx(fc.seg_sx(a["body"]))} {sx(fc.seg_sx(a["trl"]))}')
+            lines.append(f'fix.rt {reg} {md[d["name"]]} {sx(fc.msg_sx(m))}')
         for d, kind, a in entry['mal']:
-            lines.append(f'fix.build {sx(fc.mdef_sx(d))} {sx(fc.seg_sx(a["hdr"]))} {sx(fc.seg_sx(a["body"]))} {sx(fc.seg_sx(a["trl"]))}')
+            lines.append(f'fix.build {md[d["name"]]} {sx(fc.seg_sx(a["hdr"]))} {sx(fc.seg_sx(a["body"]))} {sx(fc.seg_sx(a["trl"]))}')
         for kind, b in entry['dec']:
             lines.append(f'fix.dec {reg} {sx(b)}')
     if ctx.driver.available:
         answers = iter(ctx.driver.ask(lines))
     else:
         answers = iter([None] * len(lines))
-        ctx.notes.append('model driver unavailable: oracle only')
+        if 'model driver unavailable: oracle only' not in ctx.notes:
+            ctx.notes.append('model driver unavailable: oracle only')
     # second batch (model round trip of successfully built out-of-domain messages) is asked per dictionary below
     fix = fc.fixmod()
     for entry in plan:
@@ -702,6 +697,48 @@ def run(ctx):
                     ctx.count('dec:float-opaque-skipped')    # float(text) is not modelled
                     continue
                 ctx.disagree(f'fix.dec ({kind}): model {a_dec[:140]} vs implementation {mine[:140]}', rep)
+
+
+def run(ctx):
+    rng = ctx.rng
+    quick = ctx.tier == 'quick'
+    ctx.notes.append('implementation group equality: ' + ('plain-dict (repaired)' if eq_is_repaired() else 'OrderedDict (order sensitive, known finding)'))
+    n_dict = 400 if quick else 9000
+    n_msg = 8 if quick else 12
+    n_mal = 4 if quick else 6
+    n_dec = 12 if quick else 20
+    ctx.cov['rule'] = ('random dictionaries (header with MsgType + 0-3 entries, 1-3 message classes with 0-6 body entries, trailer 0-3; '
+                       'types int/float/bool/char/string; groups nested to depth 3; tags 1-5 digits, pairwise distinct) x messages '
+                       '(optional subsets, 0..7 instances, shuffled assignment order, re-assignment, negative/huge ints, repr floats, '
+                       "'=' inside strings, empty strings); distinct = distinct (dictionary, message) s-expression; plus out-of-domain "
+                       'assignments (type errors, unknown keys, bool in int field, non-ASCII, SOH in text, instance without first field) '
+                       'and mutated byte strings for the decoder — those for model/implementation agreement only')
+    # ---------------- plan all cases (pure data)
+    plan = []      # per dictionary: {'mdefs', 'wf': [(d, assign, m)], 'mal': [(d, kind, assign)], 'dec': [(kind, bytes)]}
+    for rep in load_corpus():
+        if rep.get('kind') == 'rt':
+            mdefs, d, m = case_from_replay(rep)
+            mdefs, d = rename(mdefs, d)
+            plan.append({'mdefs': mdefs, 'wf': [(d, m, m)], 'mal': [], 'dec': [], 'corpus': True})
+    wit = None
+    if ctx.driver.available:
+        try:
+            w = parse_sx(ctx.driver.ask(['fix.witness'])[0])
+            mdefs = [fc.mdef_from_parsed(x) for x in w[0]]
+            d = fc.mdef_from_parsed(w[1])
+            m = fc.msg_from_parsed(w[2])
+            mdefs, d = rename(mdefs, d)
+            plan.append({'mdefs': mdefs, 'wf': [(d, m, m)], 'mal': [], 'dec': [], 'witness': True})
+            wit = (d, m)
+        except Exception as e:  # noqa
+            ctx.notes.append(f'witness not available from the driver: {e!r}')
+    execute_plan(ctx, rng, plan)                      # corpus + witness first
+    CHUNK = 250
+    for start in range(0, n_dict, CHUNK):
+        plan = []
+        for i in range(start, min(n_dict, start + CHUNK)):
+            plan.append(gen_entry(rng, i, n_msg, n_mal, n_dec))
+        execute_plan(ctx, rng, plan)
     if wit is not None:
         ctx.notes.append('Lean witness Witness.C13 (fix.witness) replayed on the implementation')
 
